@@ -3,7 +3,7 @@
    stay the extracted inductive types. *)
 From Coq Require Import Extraction ExtrOcamlBasic.
 From Wencry Require Import Bytes AesSpec AesModel ModesSpec ModesModel HashSpec HashModel
-     Base64Spec Base64Model FileModel FileSpec PipeConc CliModel SrcRun.
+     Base64Spec Base64Model FileModel FileSpec PipeConc CliModel SrcRun SrcRun2.
 Extraction Language OCaml.
 Set Extraction Optimize.
 Extraction "model.ml"
@@ -20,4 +20,5 @@ Extraction "model.ml"
   CliModel.cli
   SrcRun.src_hash_string SrcRun.src_hash_file SrcRun.src_aes SrcRun.src_mode SrcRun.src_b64_encode SrcRun.src_b64_decode
   SrcRun.src_b64_valid SrcRun.iob_state SrcRun.src_load SrcRun.src_export
+  SrcRun2.src_hmac SrcRun2.src_cmphmac SrcRun2.src_verify SrcRun2.src_header
   PipeConc.tag_run PipeConc.tag_tr PipeConc.tag_event PipeConc.terminal PipeConc.output PipeConc.crashed PipeConc.enabled_count.
